@@ -42,6 +42,12 @@ pub fn long_frags() -> &'static [&'static str] {
     })
 }
 
+/// Two strings with the same 64-bit FNV-1a hash (0x520b267f49bffd50) - the hash the library uses, without any further
+/// comparison, as the key of a vector's children and (over name and constant-label values) as a descriptor's identity.
+/// Found by a birthday search (about 2^32 hash evaluations); any two strings with equal FNV-1a state stay equal under
+/// every common suffix, so the pair collides as label values, as metric names and inside longer keys alike.
+pub const FNV64_COLLISION: (&str, &str) = ("mqhmlpemtukl3g", "mjopqa3bdnatil");
+
 pub const VALID_LABEL_NAMES: &[&str] = &["a", "b", "ab", "l1", "x_y", "B", "_z", "le2", "quantile_", "a0"];
 pub const CONST_LABEL_NAMES: &[&str] = &["c1", "aa", "zz", "A", "k_", "c_2"];
 pub const METRIC_NAMES: &[&str] = &["m", "a", "a_b", "ab", "a_total", "ns:x", "_u", "m1", "a_b_c", "zz9"];
